@@ -313,3 +313,60 @@ mapspec_external_indices = Contract(
     ensures=_ext_ensures,
 )
 ALL += [arrayspec_indices, mapspec_output_indices, mapspec_input_indices, mapspec_external_indices]
+
+
+# ---- MapSpec.rename (C08, C10): a renaming is simultaneous -------------------------------------------------------------------
+from .ty import ArraySpecT, Axes, SArraySpec  # noqa: E402,F811
+
+DSS = _TDict(TStr, TStr)
+
+arrayspec_new = Contract(
+    f"{F}::ArraySpec", params={"name": TStr, "axes": Axes}, returns=ArraySpecT, trusted=True, pure=True,
+    ensures=lambda S, a, r, post: {"fields": S.and_(S.eq(r.name, a.name), lambda: S.eq(r.axes, a.axes) if not S.symbolic
+                                                  else r.axes.t == a.axes.t)},
+    note="constructor of the frozen dataclass ArraySpec: stores its fields (its __post_init__ validates the name and the "
+         "axes as identifiers; renaming to identifiers is the caller's business)",
+)
+mapspec_new = Contract(
+    f"{F}::MapSpec", params={"inputs": SArraySpec, "outputs": SArraySpec}, returns=MapSpecT, trusted=True, pure=True,
+    ensures=lambda S, a, r, post: {"fields": (r.inputs.t == a.inputs.t) & (r.outputs.t == a.outputs.t) if S.symbolic else True},
+    note="constructor of the frozen dataclass MapSpec: stores its fields; its __post_init__ checks the axes only, which a "
+         "renaming leaves unchanged",
+)
+
+
+def _renamed(S, ren, sp):
+    return S.ite(S.has(ren, sp.name), lambda: ren[sp.name], lambda: sp.name)
+
+
+def _rename_side(S, ren, old, new):
+    return S.and_(S.len(new) == S.len(old), lambda: S.forall(0, S.len(old), lambda i: S.and_(
+        S.eq(new[i].name, _renamed(S, ren, old[i])),
+        lambda: (new[i].axes.t == old[i].axes.t) if S.symbolic else tuple(new[i].axes) == tuple(old[i].axes))))
+
+
+mapspec_rename = Contract(
+    f"{F}::MapSpec.rename", params={"self": MapSpecT, "renames": DSS}, returns=MapSpecT,
+    ensures=lambda S, a, r, post: {
+        "every input keeps its axes and gets the name the renaming gives to *its own old name* (simultaneous: a target "
+        "that is itself a key is not renamed again)": _rename_side(S, a.renames, a.self.inputs, r.inputs),
+        "the same for the outputs": _rename_side(S, a.renames, a.self.outputs, r.outputs),
+    },
+)
+ALL += [arrayspec_new, mapspec_new, mapspec_rename]
+
+
+def rename_gen(rng, tier):
+    from pipefunc.map._mapspec import MapSpec
+    specs = ["a[i], b[j] -> c[i, j]", "x[i] -> y[i]", "x[i, :], z[i] -> y[i], w[i]", "... -> v[k]", "p[i], q[i] -> r[i]"]
+    for sp in specs:
+        m = MapSpec.from_string(sp)
+        names = list(m.input_names) + list(m.output_names)
+        for _ in range(20 if tier == "quick" else 200):
+            sub = rng.sample(names, rng.randint(0, len(names)))
+            tgt = [rng.choice(names + ["fresh", "other"]) for _ in sub]
+            ren = dict(zip(sub, tgt))
+            new_names = [ren.get(n, n) for n in names]
+            if len(set(new_names)) != len(new_names):
+                continue
+            yield {"self": m, "renames": ren}
